@@ -380,6 +380,7 @@ static int is_ogg_sample(HIO_HANDLE *f, struct xmp_sample *xxs)
 {
 	/* uint32 size; */
 	uint32 id;
+	long pos;
 
 	/* Sample must be at least 4 bytes long to be an OGG sample.
 	 * Bonnie's Bookstore music.oxm contains zero length samples
@@ -387,9 +388,18 @@ static int is_ogg_sample(HIO_HANDLE *f, struct xmp_sample *xxs)
 	if (xxs->len < 4)
 		return 0;
 
+	if ((pos = hio_tell(f)) < 0)
+		return 0;
+
 	/* size = */ hio_read32l(f);
 	id = hio_read32b(f);
-	if (hio_error(f) != 0 || hio_seek(f, -8, SEEK_CUR) < 0)
+	if (hio_error(f) != 0) {
+		/* Fewer than 8 bytes left (a short final sample): not OGG.
+		 * Put the stream back so the PCM is still loaded. */
+		hio_seek(f, pos, SEEK_SET);
+		return 0;
+	}
+	if (hio_seek(f, pos, SEEK_SET) < 0)
 		return 0;
 
 	if (id != MAGIC_OGGS) {		/* copy input data if not Ogg file */
